@@ -234,9 +234,9 @@ def st_field_case(draw):
         f["nullable"], f["unique"] = True, False
         f["checks"] = list(f["checks"]) + [{"c": "vec_count", "k": max(1, size - draw(st.integers(0, 1)))}]
     case = {"kind": kind, "clean": clean, "field": f, "size": size, "seed": draw(st.integers(0, 2 ** 16))}
-    if sp.cls_of(f["dtype"]) in ("dt", "td") and draw(st.integers(0, 2)) == 0:
+    if sp.cls_of(f["dtype"]) in ("dt", "td") and draw(st.integers(0, 2)) <= 1:
         case["tscale"] = "ns"
-        if draw(st.booleans()):
+        if draw(st.integers(0, 2)) <= 1:
             # a range a few nanoseconds wide and a membership check over instants inside it: every drawn element is
             # compared with the listed values (scalars of different libraries must be recognised as the same instant)
             t = draw(st.integers(-20, 20))
